@@ -40,6 +40,55 @@ theorem restart_step (size : Nat → Nat) (l : Loop) (a : Addr) : Step size l (l
   | none => right; rfl
   | some h => left; exact Step.hostLocal l h _ (host?_mem l a h hh) (fun r hr => hr)
 
+/-- a replica that applied its own removal stopping (dragonboat's behaviour, `Loop.settle`) is a `Step` -/
+theorem settle_step (size : Nat → Nat) (l : Loop) (a : Addr) : Step size l (l.settle a) ∨ l.settle a = l := by
+  unfold Loop.settle
+  cases hh : l.host? a with
+  | none => right; rfl
+  | some h => left; exact Step.hostLocal l h _ (host?_mem l a h hh) (fun r hr => hr)
+
+theorem find?_map_replace_host (a : Addr) (h' : Host) (ha : h'.addr = a) : ∀ (hs : List Host) (h : Host),
+    hs.find? (·.addr == a) = some h →
+    (hs.map fun x => if x.addr == h'.addr then h' else x).find? (·.addr == a) = some h' := by
+  intro hs
+  induction hs with
+  | nil => intro h hf; simp at hf
+  | cons x xs ih =>
+    intro h hf
+    simp only [List.map_cons, List.find?_cons] at hf ⊢
+    by_cases hx : (x.addr == a) = true
+    · have hx' : (x.addr == h'.addr) = true := by rw [ha]; exact hx
+      have ha' : (h'.addr == a) = true := by simp [ha]
+      simp only [hx', if_true, ha']
+    · have hxf : (x.addr == a) = false := by simpa using hx
+      have hx' : (x.addr == h'.addr) = false := by rw [ha]; exact hxf
+      simp only [hxf] at hf
+      simp only [hx', Bool.false_eq_true, if_false, hxf]
+      exact ih h hf
+
+theorem host?_setHost (l : Loop) (a : Addr) (h h' : Host) (hh : l.host? a = some h) (ha : h'.addr = a) :
+    (l.setHost h').host? a = some h' := by
+  unfold Loop.setHost Loop.host?
+  exact find?_map_replace_host a h' ha l.hosts h hh
+
+/-- what `settle` achieves: afterwards no replica running on the host has applied its own removal (the group
+    histories are untouched by `settle`, so the test means the same before and after) -/
+theorem settle_spec (l : Loop) (a : Addr) (h : Host) (hh : l.host? a = some h) :
+    (l.settle a).groups = l.groups ∧
+    ∀ h', (l.settle a).host? a = some h' → ∀ r ∈ h'.running, l.appliedOwnRemoval r = false := by
+  unfold Loop.settle
+  simp only [hh]
+  refine ⟨rfl, ?_⟩
+  intro h' hh' r hr
+  have ha : h.addr = a := by
+    have := List.find?_some hh
+    simpa using this
+  have key := host?_setHost l a h { h with running := h.running.filter fun r => !l.appliedOwnRemoval r } hh ha
+  rw [key] at hh'
+  cases hh'
+  simp only [List.mem_filter, Bool.not_eq_true'] at hr
+  exact hr.2
+
 theorem tick_step_db (size : Nat → Nat) (l : Loop) (db' : DB) (n : Nat) (h : l.db.applyTick = .ok (db', n)) :
     Step size l { l with db := db' } := by
   unfold DB.applyTick at h
